@@ -238,6 +238,10 @@ def chunk_blobs(chunk, acc):
         blobs.append((f"A-{ln}", pkcs1_encrypt(key, b"A" * ln, ln + 1)))
     for ln in (0, 1, 3):  # shorter than the magic itself
         blobs.append((f"short-{ln}", pkcs1_encrypt(key, good[:ln], 77 + ln)))
+    # a complete, consistent metadata plaintext behind a few bytes of junk (the magic is then NOT at offset 0)
+    full = struct.pack(">II16sHHIIHBBBHIIII", 0xBEEF, 51 + 5, bytes(range(16)), *([0] * 13)) + b"a\tb\tc"
+    for junk in (b"\x00", b"\x01\x02", b"\xff\xff\xff", b"JUNKJUNK", b"\x00\x00\xbe"):
+        blobs.append((f"junk{len(junk)}+metadata", pkcs1_encrypt(key, junk + full, 500 + len(junk))))
     # a genuine ciphertext with something in front of / behind it, cut short, or given twice: not one RSA block
     with ScriptedRandom(acc.seed + 5):
         valid = c2.encrypt_metadata(m, key.public_key())
@@ -298,6 +302,11 @@ def chunk_derive(chunk, acc):
         b2 = call(c2.BeaconKeys.from_aes_rand, r, iv)
         if isinstance(b2, str) or b2.iv != iv or b2.aes_key != exp[0]:
             acc.fail("C06/derive/custom-iv", {"kind": "derive", "aes_rand": r.hex()}, iv.hex(), repr(b2)[:100])
+    # the same metadata encrypted for one key after the other: every blob belongs to the key it was made for
+    for r in seeds[:2]:
+        for bits, which in ((1024, 0), (1024, 1), (2048, 0), (2048, 1), (1024, 0)):
+            acc.states += 1
+            roundtrip(acc, c2, bits, which, {"bid": 1234, "pid": 77}, b"PC\tuser\tproc", r, ("same-metadata", r, bits, which))
     # a traffic decoder that is given the 16 random bytes works with the keys derived from them - whatever other key
     # material accompanies them (an explicit HMAC key, the RSA private key, verification switched off)
     from dissect.cobaltstrike import beacon
